@@ -12,7 +12,8 @@ for d in sorted(glob.glob('/verif/seeded/*')):
         if v['rc'] == 1:
             sig = re.sub(r'^\d+\s+', '', v['signatures'].split(';')[0].strip())
             det.append("%s (`%s`)" % (k, sig[:70]))
-    rows.append("| %s | %s | %s | %s |" % (m['id'], title.replace('|', '/'), m.get('demo_features', '').replace('--features ', '') or '—', "; ".join(det) or "**none**"))
+    none = "**none** (outside the property's input domain: %s)" % m['domain_note'].split(';')[0] if m.get('in_property_domain') is False else "**none**"
+    rows.append("| %s | %s | %s | %s |" % (m['id'], title.replace('|', '/'), m.get('demo_features', '').replace('--features ', '') or '—', "; ".join(det) or none))
 print("| id | change | features needed | caught by (quick tier; first signature) |")
 print("|---|---|---|---|")
 print("\n".join(rows))
